@@ -956,8 +956,11 @@ class ICalendarFile(File):
                 except KeyError:
                     pass
                 else:
-                    if p is not None:
-                        yield p.to_ical()
+                    # A property that occurs more than once comes back as a
+                    # list; index every instance.
+                    for value in p if isinstance(p, list) else [p]:
+                        if value is not None:
+                            yield value.to_ical()
             else:
                 raise AssertionError(f"segments: {segments!r}")
 
